@@ -439,14 +439,14 @@ fn cmd_run(a: &Args) -> i32 {
             None if gen == "layout" => {
                 // C09: the same call sequence under K heap layouts
                 let k = a.u64("layouts", 8) as usize;
-                let src = this % 3;
+                let src = this % 4;
                 let mut cfg0 = cfg.clone();
                 cfg0.class = Class::Full;
                 cfg0.alloc_mode = alloc::MODE_SCATTER;
                 cfg0.hard_exit = false;
                 let (first, srcdesc) = match src {
                     0 => {
-                        let (ops, desc) = gen::family_ops(this / 3, seed, Class::Full, 10);
+                        let (ops, desc) = gen::family_ops(this / 4, seed, Class::Full, 10);
                         let mut it = ops.into_iter();
                         let mut g = |_: &World| it.next();
                         (run::run_history(&cfg0, &mut g, 100_000), format!("family[{}]", desc))
@@ -457,6 +457,15 @@ fn cmd_run(a: &Args) -> i32 {
                         let mut rg = RandGen::new(rc, hseed);
                         let mut g = |w: &World| rg.next(w);
                         (run::run_history(&cfg0, &mut g, 10_000), format!("rand FULL hseed={}", hseed))
+                    }
+                    3 => {
+                        // one scripted destructor panic: what is destroyed by the interrupted
+                        // operation must not depend on the layout either
+                        cfg0.class = Class::Panic;
+                        let (ops, desc) = gen::script_ops(this / 4, seed, gen::ScriptMode::Panic);
+                        let mut it = ops.into_iter();
+                        let mut g = |_: &World| it.next();
+                        (run::run_history(&cfg0, &mut g, 100_000), format!("panic[{}]", desc))
                     }
                     _ => {
                         let sp = EnumSpace { n: 3, pair_base: 6, full_only: true };
@@ -793,6 +802,7 @@ fn cmd_scale(a: &Args) -> i32 {
                 .num("max_depth", o.max_depth as u64)
                 .num("build_ms", o.build_ms as u64)
                 .num("collect_ms", o.collect_ms as u64)
+                .num("collect_cpu_us", o.collect_cpu_us)
                 .end();
             println!("SCALE {}", line);
             let _ = std::io::stdout().flush();
